@@ -25,6 +25,7 @@ func genSettleScenario(r *kernel.Rand, prop string) *kernel.Scenario {
 	c["fifo"] = int64(r.Intn(2))
 	c["async_bus"] = int64(r.Intn(2))
 	c["bus_max_us"] = int64([]int{100, 400, 2000}[r.Intn(3)])
+	c["bus_ack_max_us"] = int64([]int{0, 0, 100, 3000}[r.Intn(4)])
 	c["react_max_us"] = int64([]int{50, 500, 3000}[r.Intn(3)])
 	c["accept_pct"] = int64([]int{100, 80, 60}[r.Intn(3)])
 	c["ledger_max_us"] = int64([]int{200, 2000, 50000}[r.Intn(3)])
